@@ -6,7 +6,7 @@ V = os.path.dirname(os.path.dirname(os.path.abspath(__file__)))
 src, caught = sys.argv[1], sys.argv[2]
 hist = sys.argv[3] if len(sys.argv) > 3 else None
 m = json.load(open(os.path.join(src, "meta.json")))
-pid = m["property"]
+pid = os.environ.get("SEED_PROP") or m["property"]
 n = 1 + max([int(os.path.basename(d).split("_")[1]) for d in glob.glob(os.path.join(V, "seeded", pid + "_*"))] or [0])
 dst = os.path.join(V, "seeded", "%s_%d" % (pid, n))
 os.makedirs(dst)
@@ -20,5 +20,7 @@ out = {"property": pid, "summary": m["summary"], "needs": m["needs"],
        "caught_by": caught}
 if hist:
     out["history"] = hist
+if pid != m["property"]:
+    out["seeded_for"] = m["property"]
 json.dump(out, open(os.path.join(dst, "meta.json"), "w"), indent=1)
 print(dst)
